@@ -17,7 +17,7 @@ import argparse
 M2 = runpy.run_path(os.path.join(REPO, 'bin', 'martinize2'), run_name='verif_m2')
 maxwarn = M2['maxwarn']
 
-TYPES = ['general', 'inconsistent-data', 'unmapped-atom', 'missing-atom', 'pdb-alternate', 'a', 'b']
+TYPES = ['general', 'inconsistent-data', 'unmapped-atom', 'missing-atom', 'pdb-alternate', 'a', 'b', '']  # '' is a legal (falsy) type
 LEVELS = [logging.DEBUG, logging.INFO, logging.WARNING, 35, logging.ERROR, logging.CRITICAL]
 
 
